@@ -3,8 +3,13 @@
    Model: Model/OptManager.v (OptManager.add_option / update_known + rollback / update / update_defer /
    __setattr__ / reset / subscribe / changed.connect / set / process_deferred, _Option incl. __deepcopy__,
    typecheck.check_option_type, _parse_setval).  Every theorem quantifies over
-     behave : listener id -> state (options, deferred, whole notification log) -> updated set -> accept?
-              i.e. ALL listener behaviours, stateful ones included (a listener either returns or raises OptionsError);
+     behave : listener id -> state (options, deferred, whole notification log) -> updated set -> reaction
+              i.e. ALL listener behaviours, stateful ones included: a listener returns (Accept), raises OptionsError
+              (Reject) or re-enters the manager with a nested self.update(kw) (Nested kw, as addons do from
+              configure; [nested] is that call, [nested_update .. fuel] the real one with a recursion-depth bound).
+              C44_always_typed and C44_rejected_restores_reentrant hold for every behave; the theorems that
+              describe the exact notifications assume [non_reentrant behave] (no Nested reaction), and then hold
+              for every [nested];
      vt, vu : the code variant (false/false = unchanged code; true = fixes/C44-validate-before-assign.diff);
      ops    : ALL histories of calls, failed calls included ([run] goes on after an exception).
    Definitions used: [restored d1 d2] = same option names in the same order, same types and defaults, and every
@@ -26,39 +31,66 @@ From MV Require Import Base.Bytes Model.OptManager Proofs.OptManagerBase Proofs.
 Import ListNotations.
 
 (* Typed: after any history, every option holds a value (and a default) of its declared type. *)
-Theorem C44_always_typed : forall behave vt vu ops n o,
-  dget n (options (run behave vt vu ops init)) = Some o ->
+Theorem C44_always_typed : forall behave vt vu fuel ops n o,
+  dget n (options (trun behave vt vu fuel ops init)) = Some o ->
   check_option_type (current o) (otype o) = true /\ check_option_type (odefault o) (otype o) = true.
 Proof. exact always_typed. Qed.
 Print Assumptions C44_always_typed.
 
 (* Transactional (partial, guard = complement of the two partial-assign findings): a rejected update-like
    call leaves every option at its previous value, from ANY well-typed-or-not state s. *)
-Theorem C44_rejected_restores_partial : forall behave vt vu o s s' e,
-  updateish o = true -> step behave vt vu o s = (s', RErr e) -> atomic_guard vt vu e ->
+Theorem C44_rejected_restores_partial : forall behave vt vu nested (NR : non_reentrant behave) o s s' e,
+  updateish o = true -> step behave vt vu nested o s = (s', RErr e) -> atomic_guard vt vu e ->
   restored (options s) (options s').
 Proof. exact rejected_restores. Qed.
 Print Assumptions C44_rejected_restores_partial.
 
 (* With the repair (vt = vu = true) the guard is vacuous: every rejected update restores. *)
-Theorem C44_rejected_restores_repaired : forall behave o s s' e,
-  updateish o = true -> step behave true true o s = (s', RErr e) -> restored (options s) (options s').
+Theorem C44_rejected_restores_repaired : forall behave nested o s s' e, non_reentrant behave ->
+  updateish o = true -> step behave true true nested o s = (s', RErr e) -> restored (options s) (options s').
 Proof. exact rejected_restores_repaired. Qed.
 Print Assumptions C44_rejected_restores_repaired.
+
+(* Re-entrant listeners (ANY behave, ANY nested): when update_known is rejected with OptionsError, the FULL option
+   set is restored -- also the options that listeners changed by nested updates during the aborted transaction --
+   provided no listener answers the re-notification (options = the restored ones, updated = the assigned names)
+   with yet another nested update (complement of finding renotify-nested-update). *)
+Theorem C44_rejected_restores_reentrant : forall behave vt nested kw s s',
+  update_known behave vt nested kw s = (s', UErr EOptionsError) ->
+  (forall l st kw', options st = dmap deepcopy_opt (options s) ->
+      behave l st (set_of (map fst (filter (is_known (options s)) kw))) <> Nested kw') ->
+  restored (options s) (options s').
+Proof. exact update_known_rejected_general. Qed.
+Print Assumptions C44_rejected_restores_reentrant.
+
+(* Non-vacuity of the above: listener 0 answers o0 = 9 with a nested update(o1 = 1080), which is accepted and
+   seen by listener 1; listener 1 then refuses o0 = 9; afterwards o0 AND o1 are back and both listeners last saw
+   the restored values. *)
+Theorem C44_reentrant_nonvacuous :
+  exists s', let s := trun dependent false false 5
+       [AddOption 0%N (TBase BInt) (VInt 0); AddOption 1%N (TBase BInt) (VInt 8080); Connect 0%N; Connect 1%N] init in
+    update_known dependent false (nested_update dependent false false 5) [(0%N, VInt 9)] s = (s', UErr EOptionsError)
+    /\ snapshot (options s) = [(0%N, VInt 0); (1%N, VInt 8080)]
+    /\ snapshot (options s') = [(0%N, VInt 0); (1%N, VInt 8080)]
+    /\ In (Notified 1%N [(0%N, VInt 9); (1%N, VInt 1080)] [1%N] KAccept) (log s')
+    /\ last_seen 0%N (log s') = Some [(0%N, VInt 0); (1%N, VInt 8080)]
+    /\ last_seen 1%N (log s') = Some [(0%N, VInt 0); (1%N, VInt 8080)].
+Proof. exact nested_nonvacuous. Qed.
+Print Assumptions C44_reentrant_nonvacuous.
 
 (* FINDING typeerror-partial-assign (unchanged code): update(o0=5, o1=7) with o1 a str option raises TypeError
    and o0 went from 0 to 5. *)
 Theorem C44_rejected_restores_refuted_typeerror :
-  exists kw s', let s := run always_ok false false two_options init in
-    step always_ok false false (Update kw) s = (s', RErr ETypeError)
+  exists kw s', let s := trun always_ok false false 5 two_options init in
+    tstep always_ok false false 5 (Update kw) s = (s', RErr ETypeError)
     /\ lookup (options s) 0%N = Some (VInt 0) /\ lookup (options s') 0%N = Some (VInt 5).
 Proof. exact typeerror_refuted. Qed.
 Print Assumptions C44_rejected_restores_refuted_typeerror.
 
 (* FINDING unknown-option-partial-assign (unchanged code): update(o0=5, o9=1) raises KeyError, o0 is 5. *)
 Theorem C44_rejected_restores_refuted_keyerror :
-  exists kw s', let s := run always_ok false false two_options init in
-    step always_ok false false (Update kw) s = (s', RErr EKeyError)
+  exists kw s', let s := trun always_ok false false 5 two_options init in
+    tstep always_ok false false 5 (Update kw) s = (s', RErr EKeyError)
     /\ lookup (options s) 0%N = Some (VInt 0) /\ lookup (options s') 0%N = Some (VInt 5).
 Proof. exact keyerror_refuted. Qed.
 Print Assumptions C44_rejected_restores_refuted_keyerror.
@@ -71,16 +103,16 @@ Proof. exact py_eq_spec. Qed.
 Print Assumptions C44_py_eq_meaning.
 
 (* A failed process_deferred keeps the deferred values. *)
-Theorem C44_deferred_kept_partial : forall behave vt vu s s' e,
-  process_deferred behave vt vu s = (s', RErr e) -> atomic_guard vt vu e -> deferred s' = deferred s.
+Theorem C44_deferred_kept_partial : forall behave vt vu nested (NR : non_reentrant behave) s s' e,
+  process_deferred behave vt vu nested s = (s', RErr e) -> atomic_guard vt vu e -> deferred s' = deferred s.
 Proof. exact process_deferred_failed_keeps_deferred. Qed.
 Print Assumptions C44_deferred_kept_partial.
 
 (* Listeners (partial, guard = complement of renotify-aborted): when an update-like call is rejected by a
    listener, and every re-notification (the events newer than the .errored marker) was accepted, then every
    listener that was notified during the call has last seen exactly the restored values. *)
-Theorem C44_renotified_partial : forall behave vt vu o s s',
-  updateish o = true -> step behave vt vu o s = (s', RErr EOptionsError) ->
+Theorem C44_renotified_partial : forall behave vt vu nested (NR : non_reentrant behave) o s s',
+  updateish o = true -> step behave vt vu nested o s = (s', RErr EOptionsError) ->
   exists delta, log s' = delta ++ log s /\
     (forallb ev_ok (newer_than_errored delta) = true ->
      forall l, In l (listeners delta) -> last_seen l (log s') = Some (snapshot (options s'))).
@@ -90,8 +122,8 @@ Print Assumptions C44_renotified_partial.
 (* FINDING renotify-aborted: receivers 0 and 1; update(o0=9) is accepted by 0, refused by 1; on the
    re-notification 0 refuses, so 1 has last seen o0 = 9 although o0 is 0 again. *)
 Theorem C44_renotified_refuted :
-  exists kw s' sn, let s := run fussy false false fussy_setup init in
-    step fussy false false (Update kw) s = (s', RErr EOptionsError)
+  exists kw s' sn, let s := trun fussy false false 5 fussy_setup init in
+    tstep fussy false false 5 (Update kw) s = (s', RErr EOptionsError)
     /\ last_seen 1%N (log s') = Some sn
     /\ sn = [(0%N, VInt 9)] /\ snapshot (options s') = [(0%N, VInt 0)].
 Proof. exact renotify_refuted. Qed.
@@ -102,8 +134,8 @@ Print Assumptions C44_renotified_refuted.
    direct receivers) exactly once, in order, all accepting, each seeing the NEW values and exactly the set U of
    assigned names, (d) every option named in kwargs holds the (last) value given, all others are untouched,
    (e) U is exactly the set of known kwarg names, without duplicates. *)
-Theorem C44_accepted_notifies : forall behave vt kw s s' unknown,
-  update_known behave vt kw s = (s', UOk unknown) ->
+Theorem C44_accepted_notifies : forall behave vt nested (NR : non_reentrant behave) kw s s' unknown,
+  update_known behave vt nested kw s = (s', UOk unknown) ->
   let known := filter (is_known (options s)) kw in
   let U := set_of (map fst known) in
   unknown = filter (fun p => negb (is_known (options s) p)) kw
@@ -121,11 +153,16 @@ Print Assumptions C44_accepted_notifies.
 (* Non-vacuity: a listener that refuses o0 = 9; update(o0=9) from o0 = 3 is rejected, o0 is 3 afterwards, four
    events were logged (accept of 3 earlier, refusal, .errored, re-notification) and the listener last saw 3. *)
 Theorem C44_nonvacuous :
-  exists s', let s := run picky false false
+  exists s', let s := trun picky false false 5
                         [AddOption 0%N (TBase BInt) (VInt 0); Connect 7%N; Update [(0%N, VInt 3)]] init in
-    step picky false false (Update [(0%N, VInt 9)]) s = (s', RErr EOptionsError)
+    tstep picky false false 5 (Update [(0%N, VInt 9)]) s = (s', RErr EOptionsError)
     /\ lookup (options s) 0%N = Some (VInt 3) /\ lookup (options s') 0%N = Some (VInt 3)
     /\ length (log s') = 4%nat
     /\ last_seen 7%N (log s') = Some [(0%N, VInt 3)].
 Proof. exact nonvacuous. Qed.
 Print Assumptions C44_nonvacuous.
+
+(* the listener of C44_nonvacuous satisfies the non_reentrant hypothesis of the notification theorems *)
+Theorem C44_nonvacuous_nr : non_reentrant picky.
+Proof. exact picky_nr. Qed.
+Print Assumptions C44_nonvacuous_nr.
